@@ -70,6 +70,9 @@ def parseFault (rpc : Rpc) : List String → Option Fault
   -- blocks arriving at the host between its inputs and the renter's signatures: every later host
   -- call takes the basis `V2TransactionSet` returns, so the exchange runs as without a fault
   | ["midmine", _] => some .none
+  -- the peer goes silent at message i: the renter's stream deadline (or context) ends the call, the
+  -- stream closes, the message was never delivered — the same steps as a lost message
+  | ["silent", i, _] => do some (.drop (← fin4? i))
   | _ => none
 
 def fmtTrace (t : List Call) : String := ".".intercalate (t.map callName)
